@@ -39,6 +39,11 @@ A("ColumnIterator::next[Iterator]", "call:<T>::expect", 1, "RangeFrom<usize> exh
 A("bool::deserialize[DeserializeValue]{closure}", "assert:BoundsCheck", 1, "arr is the &[u8; 1] returned by ensure_exact_length::<_, 1>, index 0")
 A("MapIterator<K, V>::deserialize[DeserializeValue]", "assert:Overflow:Mul", 1, "2 * count with count <= i32::MAX from read_int_length (usize is 64-bit on supported targets)")
 A("RawTablet::from_custom_payload", "assert:Overflow:Add", 1, "first_token + 1 in the region where first_token < last_token <= i64::MAX")
+# sites that exist only under the optional chrono-04 / time-03 features (thorough tier, config `full`)
+A("Date::deserialize[DeserializeValue]{closure}", "call:<T, E>::unwrap", 1, "time::Date::from_calendar_date(1970, January, 1).unwrap(): constant arguments, independent of the frame")
+A("NaiveDate::deserialize[DeserializeValue]{closure}", "call:<T>::unwrap", 1, "chrono::NaiveDate::from_ymd_opt(1970, 1, 1).unwrap(): constant arguments, independent of the frame")
+A("OffsetDateTime::deserialize[DeserializeValue]{closure}", "assert:Overflow:Mul", 1, "`millis as i128 * 1_000_000` with millis: i64; |product| < 2^63 * 2^20 < 2^127")
+A("value::get_days_since_epoch_from_date_column", "assert:Overflow:Sub", 1, "`days as i64 - (1 << 31)` with days: u32; result in [-2^31, 2^31)")
 UNR = "the arm is `unreachable!(\"type check should have prevented this\")`; rule R2 shows the shapes reaching it are exactly those type_check rejects"
 for t in ("ListlikeIterator<T>", "MapIterator<K, V>", "UdtIterator", "Vec<T>", "VectorIterator<T>"):
     A(t + "::deserialize[DeserializeValue]", "call:panicking::panic_fmt", 1, UNR)
